@@ -83,6 +83,33 @@ class FailingAsync(AsyncEventProcessor):
         self.shutdown()
 
 
+class _EqualToAll:
+    """Processors that compare (and hash) EQUAL although they are different objects — e.g. frozen dataclass exporters with one endpoint."""
+
+    def __eq__(self, other: Any) -> bool:
+        return isinstance(other, _EqualToAll)
+
+    def __hash__(self) -> int:
+        return 7
+
+
+class _Unhashable:
+    """Processors defining __eq__ without __hash__ — what an ordinary (non-frozen) @dataclass processor is."""
+
+    def __eq__(self, other: Any) -> bool:
+        return self is other
+
+    __hash__ = None  # type: ignore[assignment]
+
+
+def _variant(cls: type, kind: str) -> type:
+    if kind == "equal":
+        return type(cls.__name__ + "Eq", (_EqualToAll, cls), {})
+    if kind == "unhashable":
+        return type(cls.__name__ + "Uh", (_Unhashable, cls), {})
+    return cls
+
+
 def core(o: dict) -> dict:
     return {k: o.get(k) for k in ("status", "values", "error", "raised")} | {"calls": impl.sort_calls(o.get("calls", []))}
 
@@ -111,6 +138,7 @@ class C13(Prop):
                 c = rng.choice(gens)()
             yield {"program": c["program"], "values": c["values"], "cfg": c.get("cfg", {}), "runner": rng.choice(["sync", "async"]),
                    "flavour": rng.choice(["sync", "async"]), "sample_seed": rng.randint(0, 10**6),
+                   "procKind": rng.choice(["plain", "plain", "equal", "unhashable"]), "warnErr": rng.random() < 0.3,
                    "disp": {"n": rng.randint(1, 8), "procs": [self._rand_proc(rng) for _ in range(rng.randint(1, 4))]}}
 
     @staticmethod
@@ -141,7 +169,8 @@ class C13(Prop):
         return {"exc": [], "shutdown": "exc"}
 
     def _run(self, case: dict, procs: list) -> dict:
-        return impl.run_case(case["program"], None, case["values"], case["cfg"], case["runner"], processors=procs)
+        return impl.run_case(case["program"], None, case["values"], case["cfg"], case["runner"], processors=procs,
+                             warn_mode="error" if case.get("warnErr") else "always")
 
     def impl(self, case: dict) -> Any:
         base = self._run(case, [])
@@ -151,11 +180,13 @@ class C13(Prop):
         rng = random.Random(case["sample_seed"])
         idxs = list(range(m)) if m <= 12 else sorted(rng.sample(range(m), 12))
         runs = []
-        Failing = FailingAsync if (case["flavour"] == "async" and case["runner"] == "async") else FailingSync
+        kind = case.get("procKind", "plain")
+        Failing = _variant(FailingAsync if (case["flavour"] == "async" and case["runner"] == "async") else FailingSync, kind)
+        Healthy = _variant(impl.Recorder, kind)
         variants = [("at", {i}, False, False) for i in idxs] + [("always", set(), True, False), ("shutdown", set(), False, True)]
         for kind, at, always, sd in variants:
             bad = Failing(at, always, sd)
-            healthy = impl.Recorder()
+            healthy = Healthy()
             o = self._run(case, [bad, healthy])
             runs.append({"kind": kind, "at": sorted(at), "core": core(o), "healthy_events": len([e for e in healthy.events if e != "shutdown"]),
                          "healthy_kinds": [type(e).__name__ for e in healthy.events if e != "shutdown"], "healthy_shutdowns": healthy.shutdowns,
@@ -180,7 +211,7 @@ class C13(Prop):
                 escaped = type(e).__name__
             finally:
                 logging.disable(logging.NOTSET)
-        return {"base": core(base), "ref_kinds": [type(e).__name__ for e in rec0.events if e != "shutdown"], "m": m, "runs": runs,
+        return {"ref_shutdowns": rec0.shutdowns, "base": core(base), "ref_kinds": [type(e).__name__ for e in rec0.events if e != "shutdown"], "m": m, "runs": runs,
                 "disp": {"received": [p.received for p in procs], "shutdowns": [p.shutdowns for p in procs], "escaped": escaped}}
 
     def oracle(self, case: dict, obs: Any) -> str | None:
@@ -192,8 +223,11 @@ class C13(Prop):
                 return f"{label}: run outcome {r['core']} differs from the run without processors {obs['base']}"
             if r["healthy_kinds"] != obs["ref_kinds"]:
                 return f"{label}: the healthy processor received {r['healthy_events']} events, the complete stream has {obs['m']}"
-            if obs["base"]["status"] != "paused" and r["healthy_shutdowns"] != 1:
-                return f"{label}: the healthy processor was shut down {r['healthy_shutdowns']} times"
+            # (a call rejected before it starts — also by a warning the process treats as an error — shuts nothing down: the reference is
+            #  what a lone healthy processor sees on the same call)
+            want_sd = obs.get("ref_shutdowns", 1)
+            if obs["base"]["status"] != "paused" and r["healthy_shutdowns"] != want_sd:
+                return f"{label}: the healthy processor was shut down {r['healthy_shutdowns']} times (a lone healthy processor: {want_sd})"
             if r["bad_received"] != obs["m"]:
                 return f"{label}: the failing processor itself stopped receiving events ({r['bad_received']} of {obs['m']})"
         if obs["disp"]["escaped"] is not None:
